@@ -1,10 +1,10 @@
 #!/usr/bin/env python3
-"""usage: verify_seed.py <PROP> <mN> <check-result-note>
+"""usage: verify_seed.py <PROP> <mN> <check-result-note> [source-dir]
 Confirms in a scratch worktree that the demo of /tmp/seed-PROP/mN fails with the patch and passes
 without it, then stores the seed under /verif/seeded/PROP-mN/ with meta.json."""
 import sys, os, re, subprocess, json, shutil, glob
 prop, m, note = sys.argv[1], sys.argv[2], sys.argv[3]
-src = f"/tmp/seed-{prop}/{m}"
+src = sys.argv[4] if len(sys.argv) > 4 else f"/tmp/seed-{prop}/{m}"
 wt = f"/tmp/vs-{prop}-{m}"
 env = dict(os.environ, GOFLAGS="-mod=mod", GOPROXY="off")
 def sh(cmd, cwd=None):
